@@ -101,6 +101,8 @@ class Prover:
                 return self.lin(v[3])
         if t == "call" and getattr(self, "engine", None) is not None and self.engine.is_local(v[1]):
             rl = self.engine.retlin(self.engine.F.fns[v[1]])
+            if rl is not None and rl[0] == 0 and len(rl[1]) == 1 and rl[1][0][1] == 1 and rl[1][0][0][0] == "PT":
+                rl = None       # an accessor: the call itself is the better atom
             if rl is not None:
                 from .guard import _subst_params
                 args = [a[1] if a[0] == "byref" else a for a in v[2]]
@@ -133,7 +135,7 @@ class Prover:
         if tk is not None and tk["k"] in ("uint", "bool", "char"):
             lo = 0
             bits = tk_bits(tk)
-            if bits is not None and bits < 64:
+            if bits is not None:
                 hi = (1 << bits) - 1
         elif tk is not None and tk["k"] == "int":
             bits = tk_bits(tk)
